@@ -413,6 +413,8 @@ def stoch_obj(draw, left_sym, right_sym, avoid=frozenset(), chem="any", arche=No
     if sym_family == "$" and arche == "aabb":
         arche = "copoly"
     order = 1
+    if not left_sym and not right_sym and draw(st.integers(0, 3)) == 0 and "multi_bond_bd" not in avoid:
+        order = draw(st.sampled_from([2, 2, 3]))  # double / triple bonded backbone (only with empty terminals)
     units = []  # list of lists of BD
     if sym_family == "$":
         head = tail = "$"
